@@ -125,7 +125,13 @@ class Models:
                 raise Unsupported("non-integer array index %r @%s" % (x, line))
             if not is_z3(x) and x < 0:
                 x = arith("+", n, x)
-            ex.oblige("index-in-bounds", band(compare("<=", 0, x), compare("<", x, n)), "bounds", line)
+            if is_z3(x) or is_z3(n):
+                # NumPy raises IndexError outside [-n, n); negative indices wrap around, which the array model does
+                # not follow: a possibly negative index is a limit of the model (UNDECIDED), not a violation
+                ex.oblige("index-in-bounds", band(compare("<=", arith("-", 0, n), x), compare("<", x, n)), "bounds", line)
+                ex.oblige("index-non-negative", compare("<=", 0, x), "model-limit", line)
+            else:
+                ex.oblige("index-in-bounds", band(compare("<=", 0, x), compare("<", x, n)), "bounds", line)
             out.append(x)
         if only is not None:
             return out[only]
